@@ -111,7 +111,7 @@ func (v *Verifier) namedByName(n string) *types.Named {
 }
 
 func (v *Verifier) isShared(f string) bool {
-	if f == "G$closed" || f == "G$clen" || f == "G$wg" || f == "G$ccap" || f == "G$smhas" || f == "G$smval" {
+	if f == "G$closed" || f == "G$clen" || f == "G$wg" || f == "G$ccap" || f == "G$smhas" || f == "G$smval" || strings.HasPrefix(f, "G$mark$") {
 		return true
 	}
 	if strings.HasPrefix(f, "M$") {
